@@ -34,6 +34,7 @@ type ConstFuncParamAnnotator struct {
 var (
 	_ ast.Annotator          = (*ConstFuncParamAnnotator)(nil)
 	_ ast.FuncDeclVisitor    = (*ConstFuncParamAnnotator)(nil)
+	_ ast.FuncDefVisitor     = (*ConstFuncParamAnnotator)(nil)
 	_ ast.FuncCallVisitor    = (*ConstFuncParamAnnotator)(nil)
 	_ ast.AssignStmtVisitor  = (*ConstFuncParamAnnotator)(nil)
 	_ ast.ConditionalVisitor = (*ConstFuncParamAnnotator)(nil)
@@ -41,7 +42,7 @@ var (
 
 func (a *ConstFuncParamAnnotator) ShouldVisit(node ast.Node) bool {
 	switch node.(type) {
-	case *ast.FuncDecl, *ast.DeclStmt:
+	case *ast.FuncDecl, *ast.FuncDef, *ast.DeclStmt:
 		return true
 	default:
 		return a.currentDecl != nil
@@ -54,10 +55,12 @@ func (a *ConstFuncParamAnnotator) VisitFuncDecl(decl *ast.FuncDecl) ast.VisitRes
 	if ast.IsGeneric(decl) {
 		for _, instantiations := range decl.Generic.Instantiations {
 			for _, instantiation := range instantiations {
-				a.VisitFuncDecl(instantiation)
+				// visit the body as well, otherwise all parameters stay marked as const
+				ast.VisitNode(a, instantiation, nil)
 			}
 		}
-		return ast.VisitRecurse
+		a.currentDecl = nil
+		return ast.VisitSkipChildren
 	}
 
 	// if the function is extern, we have to assume that the parameters are not const
@@ -97,10 +100,24 @@ func (a *ConstFuncParamAnnotator) VisitFuncDecl(decl *ast.FuncDecl) ast.VisitRes
 	return ast.VisitRecurse
 }
 
+// the body of a forward declared function belongs to its declaration
+func (a *ConstFuncParamAnnotator) VisitFuncDef(def *ast.FuncDef) ast.VisitResult {
+	if def.Func == nil || def.Func.Def != def {
+		a.currentDecl = nil
+		return ast.VisitSkipChildren
+	}
+	return a.VisitFuncDecl(def.Func)
+}
+
 func (a *ConstFuncParamAnnotator) VisitFuncCall(call *ast.FuncCall) ast.VisitResult {
 	var isConst map[string]bool
 	if attachement, ok := a.CurrentModule.Ast.GetMetadataByKind(call.Func, ConstFuncParamMetaKind); ok {
 		isConst = attachement.(ConstFuncParamMeta).IsConst
+	}
+	// the body of a forward declared or recursively called function was not (completely) visited yet,
+	// so its parameters might still turn out to be mutable
+	if call.Func == a.currentDecl || ast.IsForwardDecl(call.Func) {
+		isConst = nil
 	}
 
 	currentParams := maps.Keys(a.currentParams)
